@@ -138,6 +138,7 @@ theorem runS_state (env : Env) (h : List SOp) : (runS env h).d = run (treeOps h)
     | addBegin n => simp only [List.foldl_cons, treeOps, ih, stepS]
     | addEnd c => simp only [List.foldl_cons, treeOps, ih, stepS]
     | closeBegin c => simp only [List.foldl_cons, treeOps, ih, stepS_closeBegin_d]
+    | credentials n => simp only [List.foldl_cons, treeOps, ih, stepS]
 
 theorem runS_append (env : Env) (h : List SOp) (op : SOp) :
     runS env (h ++ [op]) = stepS env (runS env h) op := by
@@ -182,6 +183,7 @@ theorem history_aux (env : Env) (h pre : List SOp) (e : Req × List Out)
       | addBegin n => exact Or.inl h1
       | addEnd c => exact Or.inl h1
       | closeBegin c => rw [stepS_closeBegin_log] at h1; exact Or.inl h1
+      | credentials n => exact Or.inl h1
       | search r =>
         simp only [stepS] at h1
         rcases List.mem_append.1 h1 with h1 | h1
@@ -211,6 +213,7 @@ theorem sent_aux (env : Env) (h pre : List SOp) (e : Req × List Out)
       | addBegin n => exact Or.inl h1
       | addEnd c => exact Or.inl h1
       | closeBegin c => rw [stepS_closeBegin_sent] at h1; exact Or.inl h1
+      | credentials n => exact Or.inl h1
       | search r =>
         simp only [stepS] at h1
         rcases List.mem_append.1 h1 with h1 | h1
@@ -657,6 +660,7 @@ theorem stepS_addingOK (env : Env) (st : SState) (op : SOp) (hi : Inv st.d) (h :
     rw [stepS_closeBegin_adding] at hc
     rw [stepS_closeBegin_d]
     exact h c hc
+  | credentials n => exact h
 
 theorem runS_inv (env : Env) (h : List SOp) : Inv (runS env h).d := by
   rw [runS_state]; exact run_inv _
@@ -668,6 +672,7 @@ theorem stepS_inv (env : Env) (st : SState) (op : SOp) (hi : Inv st.d) : Inv (st
   | addBegin n => exact step_inv st.d (.initialized n false) hi
   | addEnd c => exact hi
   | closeBegin c => rw [stepS_closeBegin_d]; exact hi
+  | credentials n => exact hi
 
 theorem runS_addingOK (env : Env) (h : List SOp) : AddingOK (runS env h) := by
   unfold runS
@@ -707,6 +712,7 @@ theorem stepS_closingOK (env : Env) (st : SState) (op : SOp) (h : ClosingOK st) 
         subst hb
         intro e; subst e; exact hx.2 ha
     · exact h
+  | credentials n => exact h
 
 theorem runS_closingOK (env : Env) (h : List SOp) : ClosingOK (runS env h) := by
   unfold runS
@@ -742,5 +748,49 @@ theorem closed_not_closing (env : Env) (h : List SOp) (c : ConnId) :
       exact (hnd.mem_erase_iff.1 hm').1 rfl
     · assumption
   exact hnot hl
+
+/-! ### the configured login name (`SOp.credentials`) -/
+
+/-- a small-step operation that assigns the configured login name -/
+def isCredentials : SOp → Bool
+  | .credentials _ => true
+  | _ => false
+
+/-- the state without the record of the configured name -/
+def forget (st : SState) : SState := { st with configured := none }
+
+theorem forget_stepS (env : Env) (st : SState) (op : SOp) (hop : isCredentials op = false) :
+    forget (stepS env st op) = stepS env (forget st) op := by
+  cases op with
+  | tree op => rfl
+  | search r => rfl
+  | addBegin n => rfl
+  | addEnd c => rfl
+  | closeBegin c =>
+    simp only [stepS, forget]
+    by_cases hx : c ∈ st.d.live ∧ c ∉ st.closing
+    · simp [hx]
+    · simp [hx]
+  | credentials n => simp [isCredentials] at hop
+
+theorem forget_foldl (env : Env) (h : List SOp) (st : SState) :
+    forget (h.foldl (stepS env) st) =
+      (h.filter (fun op => !isCredentials op)).foldl (stepS env) (forget st) := by
+  induction h generalizing st with
+  | nil => rfl
+  | cons op h ih =>
+    rw [List.foldl_cons, ih]
+    cases hop : isCredentials op with
+    | false =>
+      rw [List.filter_cons_of_pos (by simp [hop]), List.foldl_cons, forget_stepS env st op hop]
+    | true =>
+      rw [List.filter_cons_of_neg (by simp [hop])]
+      cases op with
+      | credentials n => rfl
+      | tree op => simp [isCredentials] at hop
+      | search r => simp [isCredentials] at hop
+      | addBegin n => simp [isCredentials] at hop
+      | addEnd c => simp [isCredentials] at hop
+      | closeBegin c => simp [isCredentials] at hop
 
 end AioslskVerif.DistSearch
